@@ -226,6 +226,50 @@ def hedgers_finite(ctx: Ctx) -> None:
                         ctx.violation(f"hedger:nonfinite-pl:{mk.__name__}:{dcls.__name__}:{scls.__name__}", f"{mk.__name__} P&L of {dcls.__name__} on {scls.__name__} is not finite", {"scripted_paths": scripted})
 
 
+def modules_at_maturity(ctx: Ctx) -> None:
+    """The module built from a derivative, at the derivative's own maturity column: price() with no arguments equals the payoff
+    of the CURRENT simulation (also after the derivative was simulated again with the same shape); forward(input) - the call
+    path a Hedger uses - returns the limiting delta at exactly t = 0, like delta() does."""
+    from pfhedge.instruments import AmericanBinaryOption, BrownianStock, EuropeanBinaryOption, EuropeanOption, LookbackOption
+    from pfhedge.nn import BlackScholes
+    torch.manual_seed(ctx.seed + 5)
+    for dcls in (EuropeanOption, LookbackOption, AmericanBinaryOption, EuropeanBinaryOption):
+        stock = BrownianStock(sigma=0.3, dt=1 / 10, dtype=DT)
+        d = dcls(stock, maturity=5 / 10, strike=1.05)
+        m = None
+        for run in range(3):                    # the same derivative and module through three simulations of equal shape
+            d.simulate(n_paths=48)
+            if m is None:
+                m = BlackScholes(d)
+            try:
+                price = m.price()
+            except Exception as e:
+                ctx.violation(f"module-at-maturity:{dcls.__name__}:raises", f"BlackScholes({dcls.__name__}).price() raised {type(e).__name__}", {"run": run, "error": repr(e)[:200]})
+                break
+            payoff = d.payoff()
+            away = (stock.spot[:, -1] - d.strike).abs() > 1e-9
+            ctx.count(n=48)
+            if price.shape[-1] != stock.spot.size(1) or not bool((((price[:, -1] - payoff).abs() <= 1e-12) | ~away).all()):
+                ctx.violation(f"module-at-maturity:{dcls.__name__}:price", f"BlackScholes({dcls.__name__}).price() at the maturity column differs from the payoff of the current simulation "
+                              f"(simulation #{run + 1} of the same derivative)", {"run": run, "max_abs_diff": float(((price[:, -1] - payoff).abs() * away).max())})
+                break
+        # forward(input) against delta(...) at exactly t = 0, in / at / out of the money
+        lm = torch.tensor([-0.25, 0.0, 0.25, 0.5], dtype=DT)
+        cols = {"log_moneyness": lm, "max_log_moneyness": torch.tensor([-0.125, 0.0, 0.25, 0.75], dtype=DT), "time_to_maturity": torch.zeros(4, dtype=DT), "volatility": torch.full((4,), 0.2, dtype=DT)}
+        try:
+            inp = torch.stack([cols[n] for n in m.inputs()], dim=-1)
+            fwd = m(inp).squeeze(-1)
+            ref = m.delta(**{n: cols[n].clone() for n in m.inputs()})
+        except Exception as e:
+            ctx.violation(f"module-at-maturity:{dcls.__name__}:forward-raises", f"BlackScholes({dcls.__name__}) forward raised {type(e).__name__} at t = 0", {"error": repr(e)[:200]})
+            continue
+        ctx.count(n=4)
+        same = ((fwd - ref).abs() <= 1e-12) | (fwd.isnan() & ref.isnan()) | ((fwd == ref))
+        if not bool(same.all()):
+            ctx.violation(f"module-at-maturity:{dcls.__name__}:forward", f"BlackScholes({dcls.__name__})(input) at t = 0 is not the limiting delta that delta() returns",
+                          {"forward": fwd.tolist(), "delta": ref.tolist()})
+
+
 def check(ctx: Ctx) -> None:
     warnings.filterwarnings("ignore")
     res = ctx.tlc("BSCases", "MC_BSCases.cfg", workers=1, coverage=False)
@@ -234,6 +278,7 @@ def check(ctx: Ctx) -> None:
     replay_cases(ctx, res.records)
     mixed_tensor(ctx)
     rejects_negative(ctx)
+    modules_at_maturity(ctx)
     hedgers_finite(ctx)
     for r in res.records:
         ctx.distinct.add(json.dumps({k: r[k] for k in ("rel", "mrel", "mabove", "tz", "vz")}))
